@@ -297,6 +297,21 @@ def mux_check(prop, tier, seed, replay):
                 transitions += nstates
                 mc_runs.append(dict(config="MC_MuxSched (simulation)", behaviours=nb, schedules=len(sch), states_generated=nstates))
                 batches.append(("tlc-sched", out))
+            # 2c. C08: fault enumeration -- every end-of-connection cause at every k-th prefix of fault-free
+            #     specification behaviours, on each endpoint, followed by a run to quiescence
+            if prop == "C08":
+                import tlc_sched
+                bases, nst = tlc_sched.schedules(6 if tier == "quick" else 60, 45, seed + 1, cfg="MC_MuxSched_nofault.cfg")
+                bases = bases[: (4 if tier == "quick" else 40)]
+                fe = tlc_sched.fault_enumeration(bases, step=3 if tier == "quick" else 1)
+                sj = os.path.join(work, "fault_enum.json")
+                json.dump(fe, open(sj, "w"))
+                out = os.path.join(work, "fault_enum.ndjson")
+                rc, o = vlib.run([bin_path, "script", sj, out], timeout=3000)
+                if rc not in (0, 3):
+                    raise ToolError("mux_sim script failed on the fault enumeration: " + o[-400:])
+                mc_runs.append(dict(config="fault enumeration", base_schedules=len(bases), schedules=len(fe)))
+                batches.append(("fault-enum", out))
         # 3. every trace is validated by TLC against the trace specification
         for mode, out in batches:
             r = vlib.validate_batch("MuxTrace", "MuxTrace", out, timeout=3000)
